@@ -21,7 +21,7 @@ INV = {
     'C12': ['Inv_C12_InformerIffOwned', 'Inv_C12_HandlersAttached', 'Inv_C12_ReadUnwatchedFails', 'Inv_C12_MatchesReferenceModel'],
     'C20': ['Inv_C20_OnePullPerImage', 'Inv_C20_ExactlyOneResponse', 'Inv_C20_NoPhantomPull', 'Inv_C20_Private', 'Inv_C20_NoLostWakeup'],
     'C13': ['Inv_C13_Deterministic', 'Inv_C13_Conservation', 'Inv_C13_LabelsAndAnnotations', 'Inv_C13_FuncAllowList'],
-    'C16': ['Inv_C16_NoDeployUnlessAdmissible', 'Inv_C16_Conditions', 'Inv_C16_NoRepull', 'Inv_C16_TemplateIsRender', 'Inv_C13_UnchangedPackageKeepsTemplate', 'Inv_C16_ValidPackageDeploys', 'Inv_C19_NoPanic', 'Inv_C16_ChangedSpecIsPulled'],
+    'C16': ['Inv_C16_NoDeployUnlessAdmissible', 'Inv_C16_Conditions', 'Inv_C16_NoRepull', 'Inv_C16_TemplateIsRender', 'Inv_C16_RecordJustified', 'Inv_C13_UnchangedPackageKeepsTemplate', 'Inv_C16_ValidPackageDeploys', 'Inv_C19_NoPanic', 'Inv_C16_ChangedSpecIsPulled'],
     'C17': ['Inv_C17_Verdict', 'Inv_C17_AllFailuresReported', 'Inv_C17_CELMustBeBoolean', 'Inv_C17_ObjectUnchanged', 'Inv_C17_NoPanic'],
     'C18': ['Inv_C18_OutputIsRender', 'Inv_C18_InvalidNoWrite', 'Inv_C18_Freed', 'Inv_C11_Scope', 'Inv_C19_NoPanic'],
     'C19': ['Inv_C19_NoPanic', 'Inv_C19_DomainCovered'],
@@ -529,7 +529,12 @@ CHECKS = {
         'reconciles are triggered through the real EnqueueWatchingObjects handler (changes of cache-labelled objects of watched kinds) and RequeueAfter timers',
         'template domain: one template family (required + optional ConfigMap source), unparsable template, out-of-namespace source / target'],
         jobs=lambda tier, seed: [dict(name='template-walk', shards=4 if tier == 'quick' else 14,
-                                      driver=['template-walk', '-n', '140' if tier == 'quick' else '7000', '-steps', '14', '-seed', str(seed)])]),
+                                      driver=['template-walk', '-n', '140' if tier == 'quick' else '7000', '-steps', '14', '-seed', str(seed)]),
+                                 # template-walk runs on a model of the dynamic cache (watch references, label-filtered events); the real
+                                 # dynamiccache.Cache is held against the same reference model here: a template deleted and created again
+                                 # (Watch, Free, Watch) must get its event handlers attached again, a freed kind serves nobody
+                                 dict(name='dyncache-enum', module='TraceDynCache', shards=4 if tier == 'quick' else 14, invariants=INV['C12'],
+                                      driver=['c12-seq', '-mode', 'enum', '-steps', '3' if tier == 'quick' else '4'])]),
     'C19': dict(level='exploration', invariants=INV['C19'], module='TraceShapes',
                 assumptions=['reduced scope: shape classes of the inputs that reach a type assertion, index expression or validated-elsewhere assumption; byte-level inputs are NOT covered (the technique cannot quantify over byte strings)',
                              'every other check of this framework also treats a recovered panic in a reconcile pass as a C19 violation (Inv_C19_NoPanic in TraceObs)'],
